@@ -187,6 +187,33 @@ pub fn samplers<S: MlDsa>(seed: u64, n: usize, nrare: usize, out: &mut Out) {
         }
         parts.lock().unwrap().push(q);
     }); } });
+    // SampleInBall alone, at scale: the challenge hash is attacker-chosen input of Verify, and a step of Algorithm 29 can reject
+    // many index bytes in a row (eleven in a row: 4e-7 per challenge).  Millions of hashes through the library and the harness's
+    // own sampler; the ones with the longest rejection runs go to TLC below (list rc, scored above every ordinary case).
+    {
+        let nb = (n * 2000).min(if n >= 100_000 { 64_000_000 } else { 10_000_000 });
+        let hunt: std::sync::Mutex<(u64, u64, Vec<Value>, Rare)> = std::sync::Mutex::new((0, 0, vec![], vec![]));
+        std::thread::scope(|sc| { for t in 0..nt { let hunt = &hunt; sc.spawn(move || {
+            let base = Prng::new(seed, 0x0400 + 0xb0 + S::SET as u64).next();
+            let (mut cases, mut fails, mut evs, mut rare): (u64, u64, Vec<Value>, Rare) = (0, 0, vec![], vec![]);
+            let mut i = t;
+            while i < nb {
+                let mut ct = vec![0x5eu8; S::LAMBDA / 4];
+                ct[..8].copy_from_slice(&base.wrapping_add(i as u64).to_le_bytes());
+                let (mine, _used, run) = refmath::sample_in_ball_run(S::TAU as usize, &ct);
+                cases += 1;
+                match guarded(|| vh::sample_in_ball::<false>(S::TAU, &ct)) {
+                    Ok(lib) => if lib != mine { fails += 1; if fails < 3 { evs.push(json!({"ev": "Sampler", "set": S::SET, "fn": "sample_in_ball", "seed": jbytes(&ct), "out": jp(&lib), "xof_bytes": 0, "why": format!("library differs from the harness's sampler (longest rejection run {})", run)})); } },
+                    Err((loc, msg)) => { fails += 1; if fails < 3 { evs.push(json!({"ev": "Panic", "call": "sample_in_ball", "loc": loc, "msg": msg})); } }
+                }
+                if run >= 7 { rare.push((100_000 + run, ct)); if rare.len() > 512 { rare.sort_by(|a, b| b.0.cmp(&a.0)); rare.truncate(64); } }
+                i += nt;
+            }
+            let mut g = hunt.lock().unwrap(); g.0 += cases; g.1 += fails; g.2.extend(evs.into_iter().take(2)); g.3.extend(rare);
+        }); } });
+        let g = hunt.into_inner().unwrap();
+        parts.lock().unwrap().push(Part { cases: g.0, fails: g.1, evs: g.2, rb: vec![], rn: vec![], rc: g.3 });
+    }
     let parts = parts.into_inner().unwrap();
     let (mut cases, mut fails) = (0u64, 0u64);
     let (mut rb, mut rn, mut rc): (Rare, Rare, Rare) = (vec![], vec![], vec![]);
